@@ -188,7 +188,8 @@ def decBody : List DecOp → List DecOp
 /-- the items of a PDU: for length-prefixed encoders the decoder's first statement reads the
     length word, which the encoder's statement list does not contain -/
 def PduDesc.items (p : PduDesc) : Option (String × List Item) :=
-  match p.fin, decBody p.dec with
+  -- an early-return statement (`stopIfAbsent`) is not an item: the items describe the image with its body
+  match p.fin, (decBody p.dec).filter (fun d => !d.isStop) with
   | .withLength, .num 4 lf :: ds => (pairOps p.enc ds).map fun its => (lf, its)
   | .plain, ds => (pairOps p.enc ds).map fun its => ("", its)
   | _, _ => none
@@ -209,6 +210,7 @@ def PduDesc.checkRoundTrip (p : PduDesc) : Bool :=
     asgOK its && decOK [] (if wl then [lf] else []) its && tailLast its && its.all Item.exact &&
     (!wl || !(allSets its).contains lf) &&
     p.fields.all (fun ft => (wl && ft.1 == lf) || (allSets its).contains ft.1) &&
-    guardOf p.dec ≤ sumMinLen its + (if wl then 4 else 0)
+    guardOf p.dec ≤ sumMinLen its + (if wl then 4 else 0) &&
+    p.dec.all (fun d => !d.isStop)     -- a conditional body is outside the round-trip theorem
 
 end SmsVerif
